@@ -193,9 +193,7 @@ inductive Prim : Fw σ → Fw σ → Prop
   | setG (s : Fw σ) (g' : Globals) : Prim s { s with g := g' }
   | setAcct (s : Fw σ) (mi : Nat) (a : RtAcct) :
       Prim s (s.modRt mi (fun r => { r with acct := a }))
-  | callStart (s : Fw σ) (t : Int) :
-      Prim s { s with actions := s.actions.map (fun _ => none), zeroedA := false, zeroedB := false,
-                      g := { s.g with now := t } }
+  | callStart (s : Fw σ) (t : Int) : Prim s (s.callStart t)
 
 inductive Run : Fw σ → Fw σ → Prop
   | refl (s : Fw σ) : Run s s
